@@ -44,6 +44,9 @@ func c12Mapping() seq.Mapping {
 		"ne": seq.NewSingleType(seq.TokenizerTypeNested, "", 0),
 		"mt": {Main: seq.MappingType{TokenizerType: seq.TokenizerTypeText}, All: []seq.MappingType{{Title: "mt", TokenizerType: seq.TokenizerTypeText}, {Title: "mt.keyword", TokenizerType: seq.TokenizerTypeKeyword, MaxSize: 18}}},
 		"mt.keyword": seq.NewSingleType(seq.TokenizerTypeKeyword, "mt.keyword", 18),
+		// multi-type field whose default (text) type is not listed first
+		"mr":         {Main: seq.MappingType{TokenizerType: seq.TokenizerTypeText}, All: []seq.MappingType{{Title: "mr.keyword", TokenizerType: seq.TokenizerTypeKeyword, MaxSize: 18}, {Title: "mr", TokenizerType: seq.TokenizerTypeText}}},
+		"mr.keyword": seq.NewSingleType(seq.TokenizerTypeKeyword, "mr.keyword", 18),
 		"ob.inner":   seq.NewSingleType(seq.TokenizerTypeKeyword, "", 0),
 		"k1":         seq.NewSingleType(seq.TokenizerTypeKeyword, "", 0),
 		"k2":         seq.NewSingleType(seq.TokenizerTypeKeyword, "", 0),
@@ -52,7 +55,7 @@ func c12Mapping() seq.Mapping {
 	}
 }
 
-var c12Fields = []string{"kw", "tx", "pa", "ex", "ob", "tg", "ne", "mt", "mt.keyword", "ob.inner", "zz", "_exists_", "_all_", "k1"}
+var c12Fields = []string{"kw", "tx", "pa", "ex", "ob", "tg", "ne", "mt", "mr", "mr.keyword", "mt.keyword", "ob.inner", "zz", "_exists_", "_all_", "k1"}
 
 var c12Frags = []string{" and ", " or ", " not ", "not ", "(", ")", "[", "]", "{", "}", ":", "*", "\"", "'", "`", "\\", "|", " | fields ", " except ", ",", " to ", " TO ", "in(", "#", "\n", "\t",
 	"", "\xff", "\xc3", "é", "İ", "-", ".", "_", "0", "a", "ab", " ", "\\*", "\\\"", "**", "))", "((", "::"}
@@ -177,6 +180,8 @@ var c12Atoms = []c12Atom{
 	{q: &model.Q{Op: "lit", Field: "k3", Pat: "c"}, vars: []string{"k3:c"}},
 	{q: &model.Q{Op: "in", Field: "k1", Pats: []string{"x", "y"}}, vars: []string{"k1:x", "k1:y"}},
 	{q: &model.Q{Op: "lit", Field: "t1", Pat: "p q"}, vars: []string{"t1:p", "t1:q"}, conj: true},
+	{q: &model.Q{Op: "lit", Field: "mr", Pat: "u-v"}, vars: []string{"mr:u", "mr:v"}, conj: true},
+	{q: &model.Q{Op: "lit", Field: "mt", Pat: "r s"}, vars: []string{"mt:r", "mt:s"}, conj: true},
 }
 
 type c12Tree struct {
